@@ -294,6 +294,7 @@ def witnesses(ck):
         "F12": "F\t" + enc_str(cyc),
         "F13": "S\t" + enc_str("r = range 0 100000000000000\n"),
         "F17": "S\t" + enc_str("alias xx xx\nxx\n"),
+        "F25": "S\t" + enc_str("fn f\nreturn true\nend\nalias g f\nr = g\n"),
         "F23": "S\t" + enc_str("a = array x\narray_push ${a} ${a}\nr = json_encode --collection ${a}\n"),
     }
     res = {}
@@ -387,5 +388,5 @@ def run(ck):
     ck.assumptions += [
         "exploration is testing: it supports the claim for the unmodelled ~200 commands and never stands in for a theorem",
         "commands that block or leave the process, need the network, or write/delete files are excluded from generation (listed in commands_excluded)",
-        "the classes of the open findings F8 (join_path argument outside C09's safe class: containing $ % CR LF # \" backslash or surrounding white space), F12 (include cycle), F13 (range/random_text with a span above 10^5), F17 (alias definitions that can form a cycle), F23 (json_encode after a handle was stored inside a collection) are excluded from generation",
+        "the classes of the open findings F8 (join_path argument outside C09's safe class: containing $ % CR LF # \" backslash or surrounding white space), F12 (include cycle), F13 (range/random_text with a span above 10^5), F17 (alias definitions that can form a cycle), F23 (json_encode after a handle was stored inside a collection), F25 (alias of a user function; functions are not generated) are excluded from generation",
     ]
